@@ -292,10 +292,10 @@ theorem runItems_step (env : Env) (n : Nat)
       split
       · rename_i start states hs hst
         intro h
-        cases hr : runFrom env n states start params ctx 0 st with
+        cases hr : runFrom env n states start params ctx 0 (st.push (.iterStarted (ctxStateName ctx) i)) with
         | mk r1 s1 =>
           rw [hr] at h
-          cases hrest : runItems env n proc sel input items (i + 1) ctx s1 with
+          cases hrest : runItems env n proc sel input items (i + 1) ctx (s1.iterEnd (ctxStateName ctx) i r1) with
           | mk rest s2 =>
             simp only [hrest] at h
             have hr1 : r1 ≠ Res.fuel := by
@@ -306,9 +306,10 @@ theorem runItems_step (env : Env) (n : Nat)
             have hrest1 : rest ≠ Except.error Res.fuel := by
               intro e; subst e; apply h
               cases r1 <;> rfl
-            have e1 := hF states start params ctx 0 st (by rw [hr]; exact hr1)
+            have e1 := hF states start params ctx 0 (st.push (.iterStarted (ctxStateName ctx) i)) (by rw [hr]; exact hr1)
             rw [e1, hr]
-            have e2 := hI proc sel input items (i + 1) ctx s1 (by rw [hrest]; exact hrest1)
+            have e2 := hI proc sel input items (i + 1) ctx (s1.iterEnd (ctxStateName ctx) i r1)
+              (by rw [hrest]; exact hrest1)
             simp only [e2, hrest]
       · intro _; trivial
 
@@ -435,22 +436,24 @@ theorem runItems_mono (env : Env) (n m : Nat) (h : n ≤ m) (proc : Json) (sel :
     (fun k => (stepMono env k).runItems proc sel input items i ctx st) n m h
 
 /-- the outcome of an execution does not depend on the fuel, once there is enough of it -/
-theorem run_fuel_independent (env : Env) (n m : Nat) (h : n ≤ m) (asl input ctx : Json) :
-    (run env n asl input ctx).status ≠ S "FUEL" → run env m asl input ctx = run env n asl input ctx := by
-  unfold run
+theorem runCore_mono (env : Env) (n m : Nat) (h : n ≤ m) (asl input ctx : Json) :
+    (runCore env n asl input ctx).1 ≠ Res.fuel → runCore env m asl input ctx = runCore env n asl input ctx := by
+  unfold runCore
   split
   · rename_i start states h1 h2
-    intro hs
-    have hne : (runFrom env n states start input ctx 0 {}).1 ≠ Res.fuel := by
-      intro e
-      apply hs
-      generalize runFrom env n states start input ctx 0 {} = r at e
-      obtain ⟨r1, s1⟩ := r
-      simp only at e
-      subst e
-      rfl
-    rw [runFrom_mono env n m h states start input ctx 0 {} hne]
+    exact runFrom_mono env n m h states start input ctx 0 {}
   · intro _; trivial
+
+theorem run_fuel_independent (env : Env) (n m : Nat) (h : n ≤ m) (asl input ctx : Json) :
+    (run env n asl input ctx).status ≠ S "FUEL" → run env m asl input ctx = run env n asl input ctx := by
+  intro hs
+  have hne : (runCore env n asl input ctx).1 ≠ Res.fuel := by
+    intro e
+    apply hs
+    unfold run Outcome.ofRun
+    rw [e]
+  unfold run
+  rw [runCore_mono env n m h asl input ctx hne]
 
 /-! ### the former counterexample, now stable -/
 
